@@ -297,6 +297,10 @@ func NewResolver(cfg *config.Config) *Resolver {
 		r.rootKeys = append(r.rootKeys, rr)
 	}
 	r.configuredRootKeys = slices.Clone(r.rootKeys)
+	// RFC 5011 §2.1: revocation is permanent. The configuration may
+	// still list a key whose revocation is on record; it must not be a
+	// trust anchor between start-up and the first AutoTA run either.
+	r.rootKeys = withoutTombstoned(cfg.Directory, r.rootKeys)
 
 	// Initialize TCP connection pool if enabled
 	if cfg.TCPKeepalive {
